@@ -4,6 +4,8 @@ import (
 	"context"
 	"errors"
 	"fmt"
+	"os"
+	"strings"
 	"testing"
 	"time"
 
@@ -256,6 +258,20 @@ func runScheduleProperty(t *testing.T, id string, scenarios func(batch int) []Sc
 	// per scenario (an unfinished deeper attempt does not make the claimed bound inexhaustive)
 	claimed := vk.Pick(run, 1, 2)
 	run.Set("preemption_bound_claimed", claimed)
+	if f := os.Getenv("VERIF_SCENARIO"); f != "" {
+		// development aid: only the scenarios whose name contains f (such a run never claims exhaustiveness)
+		all := scenarios
+		scenarios = func(b int) []Scenario {
+			var out []Scenario
+			for _, sc := range all(b) {
+				if strings.Contains(sc.Name, f) {
+					out = append(out, sc)
+				}
+			}
+			return out
+		}
+		run.NotExhaustive("VERIF_SCENARIO filter " + f)
+	}
 	nslots := len(batches) * len(scenarios(batches[0]))
 	slot := vk.Pick(run, 16*time.Minute, 45*time.Minute) / time.Duration(nslots)
 	run.Set("time_slot_per_scenario_s", slot.Seconds())
@@ -299,7 +315,26 @@ func runScheduleProperty(t *testing.T, id string, scenarios func(batch int) []Sc
 	run.Set("per_scenario", per)
 }
 
+// c12AllScenarios adds the snapshot-transaction datastore flavour of the scenarios in which the waited
+// header is written out of the pending batch while the reader is inside GetByHeight.
+func c12AllScenarios(batch int) []Scenario {
+	out := c12Scenarios(batch)
+	if batch != 1 {
+		return out
+	}
+	for _, sc := range c12Scenarios(batch) {
+		for _, n := range []string{"S1-", "S10-", "S2-"} {
+			if strings.HasPrefix(sc.Name, n) {
+				sc.Name += ",txn"
+				sc.Txn = true
+				out = append(out, sc)
+			}
+		}
+	}
+	return out
+}
+
 func TestC12(t *testing.T) {
-	runScheduleProperty(t, "C12", c12Scenarios, []int{1, 64},
+	runScheduleProperty(t, "C12", c12AllScenarios, []int{1, 64},
 		"stateless depth-first enumeration of every thread schedule with at most B preemptions of 6 concurrent scenarios on the real store (instrumented copy): reader vs contiguous append; reader vs gapped-then-filled append (2 writers); two readers + canceller + writer; missing height below Height() with a concurrent writer; cancelled reader; two readers vs out-of-order writers; batch sizes 1 and 64; per-execution oracle (reader gets the appended header, never a deadline error; ErrNotFound / cancellation promptly); distinct = (scenario, batch, reader outcome)")
 }
